@@ -2,6 +2,7 @@
 import lib
 import urlcorr
 import reccorr
+import specialcorr
 
 AGG_ONLY = {"validate", "agg", "pathlen"}
 
@@ -57,6 +58,10 @@ def check(run):
                    str(bad[:2])[:1200])
         for b in bad[:3]:
             run.violation("urlsetter:" + b["line"], b["what"], lines=[b["line"]], detail=b)
+    # the aggregator instantiation of the parser (Model/ParseAgg.lean; Props/C04.parse_agrees proves it in step with ada::url's):
+    # buffer and offsets of ada::parse<url_aggregator>, without and with a base, partly under a configured maximum length
+    specialcorr.explore_agg(run, binp, 10000 if run.tier == "quick" else 150000)
+    specialcorr.explore_agg_base(run, binp, 12000 if run.tier == "quick" else 150000)
     for r in res[-2:]:
         run.sample(urlcorr.describe(r["case"]))
     run.oblige("L3:lockstep(url_aggregator,url)", True)
